@@ -78,3 +78,40 @@ Proof.
   intros H1 Hm H2. unfold lower_reduce. cbn [skel map]. rewrite !perm_of_names, !kept_lnames, H2, Hm.
   now rewrite (kept_names_by_marks (leaves din) (leaves din') H1 Hm).
 Qed.
+
+(* dot on the matmul path *)
+Lemma lnames_group (P : N -> bool) d :
+  lnames (map leaf_ax (filter (fun x => P (fst (fst x))) (leaves d))) = filter P (lnames d).
+Proof.
+  unfold lnames at 1. rewrite leaves_leaf_ax, map_map. unfold lnames. cbn [fst snd].
+  induction (leaves d) as [|x r IH]; cbn [filter map]; [reflexivity|]. destruct (P (fst (fst x))); cbn [map]; [f_equal|]; exact IH.
+Qed.
+
+Lemma lnames_three a b c : lnames [PFl a; PFl b; PFl c] = lnames a ++ lnames b ++ lnames c.
+Proof. unfold lnames. rewrite leaves_three, !map_app. reflexivity. Qed.
+
+Lemma dot_groups_names d1 d2 dout d1' d2' dout' :
+  lnames d1 = lnames d1' -> lnames d2 = lnames d2' -> lnames dout = lnames dout' ->
+  lnames (dot_lhs d1 d2 dout) = lnames (dot_lhs d1' d2' dout') /\ lnames (dot_rhs d1 d2 dout) = lnames (dot_rhs d1' d2' dout') /\
+  lnames (dot_mid d1 d2 dout) = lnames (dot_mid d1' d2' dout').
+Proof.
+  intros H1 H2 H3. unfold dot_lhs, dot_rhs, dot_mid, dot_batch, dot_contract, dot_left, dot_right. rewrite !lnames_three.
+  rewrite !(lnames_group (fun n => memNb n (lnames d2) && memNb n (lnames dout))),
+          !(lnames_group (fun n => memNb n (lnames d2) && negb (memNb n (lnames dout)))),
+          !(lnames_group (fun n => negb (memNb n (lnames d2)))), !(lnames_group (fun n => negb (memNb n (lnames d1)))),
+          !(lnames_group (fun n => memNb n (lnames d2') && memNb n (lnames dout'))),
+          !(lnames_group (fun n => memNb n (lnames d2') && negb (memNb n (lnames dout')))),
+          !(lnames_group (fun n => negb (memNb n (lnames d2')))), !(lnames_group (fun n => negb (memNb n (lnames d1')))).
+  now rewrite H1, H2, H3.
+Qed.
+
+Theorem skel_dot d1 d2 dout d1' d2' dout' :
+  lnames d1 = lnames d1' -> lnames d2 = lnames d2' -> lnames dout = lnames dout' ->
+  skel (lower_dot d1 d2 dout) = skel (lower_dot d1' d2' dout').
+Proof.
+  intros H1 H2 H3. destruct (dot_groups_names d1 d2 dout d1' d2' dout' H1 H2 H3) as [Hl [Hr Hm]].
+  unfold lower_dot, dot_matmul. cbn [skel map].
+  rewrite (skel_rearrange 0 d1 (dot_lhs d1 d2 dout) d1' (dot_lhs d1' d2' dout') H1 Hl),
+          (skel_rearrange 1 d2 (dot_rhs d1 d2 dout) d2' (dot_rhs d1' d2' dout') H2 Hr).
+  now rewrite !perm_of_names, Hm, H3.
+Qed.
